@@ -63,9 +63,10 @@ MCNext == AConstruct \/ AWrite \/ ARead \/ AEdit \/ AEditString \/ ANoMutation \
 
 MCSpec == MCInit /\ [][MCNext]_mc5vars
 
+SetToSeqL(S) == IF S = {"ok"} THEN <<"ok">> ELSE IF S = {"err"} THEN <<"err">> ELSE <<"ok", "err">>
 Emit ==
   LDone =>
     PrintT(<<"SCN", ToJson(
-      [m |-> "LIFE", doc |-> field, s |-> str, from |-> from, ops |-> ops, out |-> res, allow |-> <<res>>,
+      [m |-> "LIFE", doc |-> field, s |-> str, from |-> from, ops |-> ops, out |-> res, allow |-> IF res \in AllowedVerdicts THEN SetToSeqL(AllowedVerdicts) ELSE <<res>>,
        near |-> (from # to)])>>)
 =============================================================================
